@@ -389,8 +389,15 @@ func c04Cut(r *fw.R, d c04Desc, s *Script, stream []byte, k int, fk xport.FaultK
 			complete = append(complete, m.Data...)
 		}
 		full := append(append([]byte(nil), complete...), truthPartial()...)
-		if rerr == io.EOF {
-			r.Violate("C04/netconn-clean-eof-on-transport-failure/"+pos, ctxKey+": NetConn.Read returned io.EOF although the peer never sent a Close frame", witness())
+		// (scripts may carry a Close frame: a complete Close(1000 / 1001) received at a message boundary before the
+		// cut legitimately reads as io.EOF through the adapter - the first version of the scripts-with-Close-frames
+		// extension alarmed on that at seed 5: false alarm, oracle corrected)
+		cleanClose := term.Kind == "close" && !term.InMessage && (term.Code == 1000 || term.Code == 1001)
+		if rerr == io.EOF && !cleanClose {
+			r.Violate("C04/netconn-clean-eof-on-transport-failure/"+pos, ctxKey+": NetConn.Read returned io.EOF although no normal / going-away Close frame was received at a message boundary", witness())
+		}
+		if cleanClose {
+			r.Count("netconn_cuts_after_clean_close", 1)
 		}
 		if !bytes.HasPrefix(full, got) {
 			r.Violate("C04/netconn-bytes-not-prefix/"+pos, fmt.Sprintf("%s: NetConn delivered %d bytes that are not a prefix of the %d true bytes (first difference %d)", ctxKey, len(got), len(full), firstDiff(got, full[:min(len(got), len(full))])), witness())
